@@ -219,6 +219,9 @@ pub struct Outcome {
 pub struct Ask {
     pub prop: &'static str,
     pub thorough: bool,
+    /// Generate deliberately tiny plans (for execution under Miri, which is
+    /// three orders of magnitude slower).
+    pub tiny: bool,
 }
 
 pub trait World: Sync {
